@@ -47,6 +47,14 @@ func Log(sev int, f bool, msg string) {
 	}
 }
 
+var table = [...]func(string){nil, log.Trace, log.Debug, log.Info, log.Warning, log.Error, log.Critical}
+
+// LogVia emits one plain line through a function value: all severities share
+// this one call site (same file and line), only the level differs.
+func LogVia(sev int, msg string) {
+	table[sev](msg)
+}
+
 // Tracer adds a context tracer, logs the given lines through it and submits it.
 func Tracer(sevs []int, texts []string) {
 	_, tr := log.AddTracer(context.Background())
